@@ -58,7 +58,7 @@ ASSUMPTIONS = [
 REQUIRED = ['direct_checks', 'concat_checks', 'size_checks', 'alignment_checks',
             'pad_checks', 'infer_checks', 'given_columns_checks',
             'empty_stream_checks', 'zero_size_batch_checks', 'passthrough_checks',
-            'apply_checks', 'fn_batch_checks', 'select_checks', 'batch_checks',
+            'apply_checks', 'fn_batch_checks', 'select_checks', 'batch_checks', 'rowchange_checks',
             'input_unchanged_checks']
 EXHAUSTIVE = {'quick': True, 'thorough': True}
 CHUNK_TIMEOUT_S = {'quick': 240, 'thorough': 3000}
@@ -463,6 +463,47 @@ def check_pipeline(ctx, cnt, case):
     ctx.violation(kind_, case, detail)
 
 
+
+def check_rowchange(ctx, cnt, case):
+  """apply(fn_batch_size=a, batch_size=b) with a fn that changes the row count.
+
+  The fn is element-wise ('drop': keeps values with v % 3 != 0, 'dup': every row
+  twice), so the concatenation of its outputs does not depend on how the inputs
+  were grouped; the emitted stream must be that concatenation re-batched to b.
+  """
+  from ml_metrics._src.chainables import transform
+  sizes, a, b, mode = case['sizes'], case['a'], case['b'], case['fnkind']
+  ctx.case(('rowchange', tuple(sizes), a, b, mode), len(sizes) >= 2)
+  rows, batches = [], []
+  for sz in sizes:
+    batches.append(list(range(len(rows), len(rows) + sz)))
+    rows.extend(batches[-1])
+
+  def fn(column):
+    if mode == 'drop':
+      return [v for v in column if v % 3 != 0]
+    return [w for v in column for w in (v, v + M)]
+
+  flat = fn(rows)
+  try:
+    t = transform.TreeTransform().apply(fn=fn, fn_batch_size=a, batch_size=b)
+    out = [list(o) for o in t.make().iterate(iter(batches))]
+  except Exception as e:  # pylint: disable=broad-exception-caught
+    ctx.violation('raised', case, {'error': f'{type(e).__name__}: {e}'[:400]})
+    return
+  cnt.add('rowchange_checks')
+  got_flat = [v for o in out for v in o]
+  if got_flat != flat:
+    ctx.violation('rowchange_rows_differ', case, {'got': got_flat[:40], 'want': flat[:40]})
+    return
+  if b:
+    want_sizes = _chunks(len(flat), b)
+    got_sizes = [len(o) for o in out]
+    if got_sizes != want_sizes:
+      ctx.violation('rowchange_batch_sizes', case,
+                    {'got_sizes': got_sizes[:30], 'want_sizes': want_sizes[:30]})
+
+
 def check_batch(ctx, cnt, case):
   """case: api='batch', rows N, n (batch size), cols (0 = bare scalars)."""
   from ml_metrics._src.chainables import transform
@@ -538,6 +579,12 @@ def _run_pipe_sweep(ctx, cnt, spec):
         for a, b in ab:
           check_pipeline(ctx, cnt, {'api': 'apply_self', 'sizes': sizes, 'cols': 1,
                                     'kind': kind, 'a': a, 'b': b})
+      if kind == 'list':
+        for a, b in ab:
+          if b:
+            for fnkind in ('drop', 'dup'):
+              check_rowchange(ctx, cnt, {'api': 'rowchange', 'sizes': sizes, 'a': a,
+                                         'b': b, 'fnkind': fnkind})
       for cols in (1, 2, 3):
         for b in (0, 1, 2, 3, 4, 6):
           check_pipeline(ctx, cnt, {'api': 'select', 'sizes': sizes, 'cols': cols,
@@ -668,6 +715,8 @@ def run_case(ctx, case):
       check_direct(ctx, cnt, case)
     elif api == 'batch':
       check_batch(ctx, cnt, case)
+    elif api == 'rowchange':
+      check_rowchange(ctx, cnt, case)
     else:
       check_pipeline(ctx, cnt, case)
   finally:
